@@ -2697,6 +2697,11 @@ coap_handle_request_send_block(coap_session_t *session,
       coap_send_internal(session, out_pdu);
     }
   }
+  /*
+   * The block that goes back as the response to this request counts as
+   * well: the entry is in use, however long the whole transfer takes.
+   */
+  coap_ticks(&lg_xmit->last_sent);
   coap_ticks(&lg_xmit->last_payload);
   goto skip_app_handler;
 #if COAP_Q_BLOCK_SUPPORT
@@ -3000,6 +3005,8 @@ coap_handle_request_put_block(coap_context_t *context,
 
   lg_srcv->last_mid = pdu->mid;
   lg_srcv->last_type = pdu->type;
+  /* In use: it is the time since the last block that makes a transfer stale */
+  coap_ticks(&lg_srcv->last_used);
 
   saved_num = block.num;
   saved_offset = offset;
@@ -4035,6 +4042,8 @@ reinit:
               }
               if (coap_send_internal(session, pdu) == COAP_INVALID_MID)
                 goto fail_resp;
+              /* In use: stale is measured from the last block, not the first */
+              coap_ticks(&lg_crcv->last_used);
             }
             if ((session->block_mode & COAP_SINGLE_BLOCK_OR_Q) ||  block.bert)
               goto skip_app_handler;
